@@ -61,6 +61,7 @@ void w_HashMap_removeKey(void* m, const long* key) { ((HM*)m)->remove(*key); }
 #if defined(NV_POOLMAP)
 void w_PoolMap_removeValue(void* m, void* item) { ((HM*)m)->remove(((Item*)item)->value); } // node computed from the element address
 #endif
+void w_HashMap_clear(void* m) { ((HM*)m)->clear(); }
 void w_HashMap_swap(void* a, void* b) { ((HM*)a)->swap(*(HM*)b); }
 void* w_HashMap_find(const void* m, const long* key) { return ((const HM*)m)->find(*key).item; }
 
@@ -353,6 +354,47 @@ void h_b_history()
 
 #endif
 
+
+// -------------------------------------------------------------- bounded: clear() on an order list of <= 2 items
+// (in one bucket chain or in two buckets): every bucket head reset through the items' cell back
+// pointers, order list empty, size 0, items pushed on the free list, nothing else written
+Item* g_i1; Item* g_i2; void* gv_i1; void* gv_i2;
+bool hm_clear_post()
+{
+  HM* m = g_M;
+  if(m->_size != 0 || m->_begin.item != &m->endItem || m->endItem.prev != 0 || m->_end.item != &m->endItem || m->data != g_data0 || m->capacity != NV_CAP) return false;
+  if(g_i1 && *g_i1->cell != 0) return false;
+  if(g_i2 && *g_i2->cell != 0) return false;
+  if(g_i1 && m->data[bucket(g_i1->key)] != 0) return false;
+  if(g_i2 && m->data[bucket(g_i2->key)] != 0) return false;
+  if(!g_i1) return m->freeItem == g_F0;
+  if(g_i1->prev != g_F0) return false;
+  if(!g_i2) return m->freeItem == g_i1;
+  return g_i2->prev == g_i1 && m->freeItem == g_i2;
+}
+void h_b_clear()
+{
+  NV_INPUT(usize, n); NV_INPUT(bool, sameChain); NV_INPUT(bool, hasFree); NV_INPUT(long, k1); NV_INPUT(long, k2); NV_INPUT(usize, size0);
+  NV_ASSUME(n <= 2 && k1 != k2 && (n < 2 || sameChain == (bucket(k1) == bucket(k2))));
+  HM* m = raw_map();
+  for(usize b = 0; b < NV_CAP; b++) m->data[b] = 0;
+  Item* F0 = hasFree ? raw_item() : (Item*)0;
+  Item* i1 = n >= 1 ? raw_item() : (Item*)0;
+  Item* i2 = n >= 2 ? raw_item() : (Item*)0;
+  m->endItem.prev = 0; m->_begin.item = &m->endItem;
+  if(i1) { *(long*)&i1->key = k1; i1->prev = 0; i1->next = &m->endItem; m->endItem.prev = i1; m->_begin.item = i1; i1->cell = &m->data[bucket(k1)]; i1->nextCell = 0; *i1->cell = i1; }
+  if(i2)
+  { // appended after i1: heads its bucket chain (in front of i1 when they collide)
+    *(long*)&i2->key = k2; i2->prev = i1; i1->next = i2; i2->next = &m->endItem; m->endItem.prev = i2;
+    i2->cell = &m->data[bucket(k2)]; i2->nextCell = *i2->cell; if(i2->nextCell) i2->nextCell->cell = &i2->nextCell; *i2->cell = i2;
+  }
+  m->freeItem = F0; m->_size = size0;
+  g_M = m; g_i1 = i1; g_i2 = i2; g_F0 = F0; g_data0 = m->data; gv_i1 = i1; gv_i2 = i2; gv_data = m->data;
+  w_HashMap_clear(m);
+  NV_POST("clear: empty order list, bucket heads reset through the back pointers, items recycled in order", hm_clear_post());
+  if(n == 2 && sameChain) { NV_REACH("b_clear.two_colliding"); }
+  if(n == 0) { NV_REACH("b_clear.empty"); }
+}
 
 // -------------------------------------------------------------- bounded: copy / assignment incl. self (<= 1 entry)
 #ifndef NV_POOLMAP
